@@ -13,8 +13,8 @@
    bound.  The earlier bounded statements (reachable sets of up to 3 workers enumerated by the kernel) are kept as an
    independent cross-check of the model. *)
 From Coq Require Import List Bool Arith Lia.
-From SyModel Require Import Hardlink.
-From SyProofs Require Import Hardlink_proofs Hardlink_unbounded.
+From SyModel Require Import Hardlink Inodes.
+From SyProofs Require Import Hardlink_proofs Hardlink_unbounded Inodes_proofs.
 Import ListNotations.
 
 (* never stuck: in every reachable state either all workers have returned or some worker can move -- any number of workers *)
@@ -93,3 +93,16 @@ Example ex_five_workers_with_failures :
   let s := run_sched false true (init 5) sched in
   all_terminal s = true /\ structure_ok s = true /\ steps_taken false true (init 5) sched <= 15 * 5 * 5 + 4 * 5.
 Proof. vm_compute. repeat split. repeat constructor. Qed.
+
+(* ---------- updates and shared inodes (Model/Inodes.v) ---------- *)
+(* "each group's content equals the source ... after later updates": any sequence of updates of distinct names leaves every updated
+   name with its own source's content and every other name of the destination -- a former hard link whose source is a file of
+   its own now, a snapshot made with cp -al -- with the content it had: a file that has further links is replaced through a
+   working file, never rewritten in place (`fix: a destination file that has further hard links is replaced ...`; before it two
+   such files overwrote each other on alternate runs: in_place_refuted) *)
+Theorem C13_updates_do_not_leak : forall U, NoDup U -> forall l s,
+  wf U s -> NoDup (map fst l) -> (forall pc, In pc l -> In (fst pc) U) ->
+  let s' := updates true U s l in
+  (forall p c, In (p, c) l -> content_of s' p = Some c) /\ (forall q, ~ In q (map fst l) -> content_of s' q = content_of s q).
+Proof. exact updates_correct. Qed.
+Print Assumptions C13_updates_do_not_leak.
